@@ -489,7 +489,7 @@ func (v Value) opMod(b Value) Value {
 	}
 }
 func (v Value) opBitLsh(b Value) Value {
-	t := mixType(v.t, b.t)
+	t := v.t // a shift keeps the type of its left operand
 	switch t {
 	case TypeFloat64:
 		return Value{t: t, num: float64(int(v.num) << int(b.num))}
@@ -506,7 +506,7 @@ func (v Value) opBitLsh(b Value) Value {
 	}
 }
 func (v Value) opBitRsh(b Value) Value {
-	t := mixType(v.t, b.t)
+	t := v.t // a shift keeps the type of its left operand
 	switch t {
 	case TypeFloat64:
 		return Value{t: t, num: float64(int(v.num) >> int(b.num))}
